@@ -171,8 +171,16 @@ def converges(truth_i, c, active):
         if snaps[0] == snaps[1] == snaps[2]:
             return True  # the first run did everything; the second and third change nothing
         if method and "KF-C09-method-created-toplevel" in active:
-            # Class.method is never found when it is absent (or when a function precedes the class: KF-C15-fnskip): appended on every run
-            return True
+            # Class.method is never found when it is absent, or when a (plain) function definition precedes the class at module level
+            # (KF-C15-fnskip): appended on every run.  Exactly those two situations are tolerated - nothing else.
+            import ast as _ast
+
+            body = _ast.parse(files[FILES[target]]).body
+            idx = [i for i, n in enumerate(body) if isinstance(n, _ast.ClassDef) and n.name == "C"]
+            has_method = bool(idx) and any(isinstance(m, _ast.FunctionDef) and m.name == "train" for m in body[idx[0]].body)
+            fn_before = bool(idx) and any(isinstance(n, _ast.FunctionDef) for n in body[:idx[0]])
+            if not has_method or fn_before:
+                return True
         return False
 
 
